@@ -19,19 +19,44 @@ class CB(copyable.Copyable, copyable.RemoteCopy):
     typeToCopy = copytype = "verif.c01.B"
 
 
-COPYABLES = (CA, CB)
+class CC(copyable.Copyable, copyable.RemoteCopy):      # name longer than every opentype string (13 bytes)
+    typeToCopy = copytype = "verif.c01.C14"
+
+
+class CD(copyable.Copyable, copyable.RemoteCopy):
+    typeToCopy = copytype = "verif.c01.a-rather-long-copyable-name.D"
+
+
+COPYABLES = (CA, CB, CC, CD)
+
+
+def _name_of_length(n):
+    base = "verif.c01.basket.with.a.long.registered.name.x"
+    return ("v.b" if n <= 3 else (base + "y" * n)[:n])
+
+
+# type names of assorted lengths: below, at and above the longest opentype string (13), up to and beyond the longest
+# name foolscap itself registers ("twisted.python.failure.Failure", 30)
+BASKET_NAMES = [_name_of_length(n) for n in (12, 3, 13, 14, 16, 21, 30, 31, 44)]
+_next_name = [0]
 
 
 class Basket(copyable.Copyable):
     """pass-by-copy object whose state is computed at serialization time: fresh containers on every getStateToCopy()"""
-    typeToCopy = "verif.c01.bk"
 
-    def __init__(self, items, extra=None):
+    def __init__(self, items, extra=None, name=None):
         self._items = set(items)
         self._extra = extra
+        if name is None:
+            name = BASKET_NAMES[_next_name[0] % len(BASKET_NAMES)]
+            _next_name[0] += 1
+        self._tname = name
+
+    def getTypeToCopy(self):
+        return self._tname
 
     def __repr__(self):
-        return "Basket(%r, %r)" % (sorted(self._items), self._extra)
+        return "Basket(%r, %r, name=%r)" % (sorted(self._items), self._extra, self._tname)
 
     def getStateToCopy(self):
         d = {"items": sorted(self._items), "count": {x: 1 for x in self._items}, "distinct": set(self._items)}
@@ -40,8 +65,8 @@ class Basket(copyable.Copyable):
         return d
 
 
-class RemoteBasket(copyable.RemoteCopy, copyable.Copyable):      # can be sent back (echo) with its plain state
-    typeToCopy = copytype = "verif.c01.bk"         # storage's RootUnslicer limits every index STRING to 13 bytes
+REMOTE_BASKETS = [type("RemoteBasket%d" % len(nm), (copyable.RemoteCopy, copyable.Copyable),      # Copyable too: can be echoed back
+                       {"typeToCopy": nm, "copytype": nm}) for nm in BASKET_NAMES]
 
 
 class Point(object):
